@@ -129,6 +129,8 @@ def _inner_random(ctx, h) -> None:
 _val = st.integers(0, 255)
 _op = st.one_of(
     st.tuples(st.just("plain_in"), st.sampled_from(KEYED + UNKEYED), st.sampled_from(["write", "response", "read"]), _val),
+    # plain frame from a device that is NOT in the security individual address table
+    st.tuples(st.just("plain_in_unknown"), st.sampled_from(KEYED + UNKEYED), st.sampled_from(["write", "response", "read"]), _val, st.sampled_from([0x1309, 0x0001, 0xFFFE])),
     st.tuples(st.just("secure_in"), st.sampled_from(KEYED), st.sampled_from(["write", "response"]), _val, st.booleans()),
     st.tuples(st.just("secure_in_unkeyed"), st.sampled_from(UNKEYED), _val),
     st.tuples(st.just("out"), st.sampled_from(KEYED + UNKEYED), st.sampled_from(["write", "response", "read"]), _val),
@@ -191,6 +193,8 @@ def run_stream(ctx, ops) -> set:
             try:
                 if kind == "plain_in":
                     h.inject_cemi(plain_frame(SENDER, op[1], _payload(op[2], op[3])))
+                elif kind == "plain_in_unknown":
+                    h.inject_cemi(plain_frame(op[4], op[1], _payload(op[2], op[3])))
                 elif kind == "secure_in":
                     seq += 1
                     h.inject_cemi(secure_frame(KEYS[op[1]], SENDER, op[1], seq, _payload(op[2], op[3]).to_knx(), AUTH if op[4] else ENC))
@@ -232,7 +236,7 @@ def run_stream(ctx, ops) -> set:
             ctx.fail(f"C18:receive-raised:{exc_site(r['exc'])}", ops, f"{where}: {r['exc']!r}")
             continue
         incoming_cb = [t for t in r["cb"] if t.direction.name == "INCOMING"]
-        if kind == "plain_in":
+        if kind in ("plain_in", "plain_in_unknown"):
             if ga in KEYS:
                 classes.add("plain-to-keyed")
                 if incoming_cb:
